@@ -64,3 +64,7 @@ def ns_of(x) -> str:
     if m.startswith("jax") or "jaxlib" in m:
         return "jax"
     return "numpy"
+
+
+def to_np_dtype(x):
+    return np.float32 if "float32" in str(x.dtype) else np.float64
